@@ -167,6 +167,7 @@ pub fn run(seed: u64, run_id: usize, p: &Params) {
         } else if roll < 72 {
             let x = [16i64, 48, 8, 160, -16, -8][rng.random_range(0..6)];
             w.adjust_debt(x);
+            w.snap();
         } else {
             let kind = match rng.random_range(0..16) {
                 0..=5 => "collect_debt",
@@ -177,6 +178,7 @@ pub fn run(seed: u64, run_id: usize, p: &Params) {
                 _ => "start_sweeping",
             };
             w.call(kind, 0, "real", false, true, None);
+            w.snap();
             if rng.random_range(0..4) == 0 {
                 w.observe();
             }
